@@ -116,3 +116,74 @@ func unreturnLast(f string) string {
 	}
 	return f
 }
+
+// (case id evalfailstate <opt|noopt> (frags <hex>...) <fail hex> <probe hex> <module hex>...)
+// The last fragment is extended by a statement that fails at run time; the variable state the
+// session keeps afterwards (read by the probe) must be the state after the statements that ran:
+// the state of a session in which the last fragment ran without the failing statement, and of the
+// concatenated script.
+func runEvalFailState(args []*Sexp) *Sexp {
+	noopt := args[0].Atom == "noopt"
+	var frags []string
+	for _, a := range args[1].List[1:] {
+		frags = append(frags, string(atomBytes(a)))
+	}
+	fail := string(atomBytes(args[2]))
+	probe := string(atomBytes(args[3]))
+	mkmm := func() *ugo.ModuleMap {
+		mm := moduleMapStd()
+		for i, a := range args[4:] {
+			mm.AddSourceModule(fmt.Sprintf("m%d", i+1), atomBytes(a))
+		}
+		return mm
+	}
+	var out bytes.Buffer
+	old := ugo.PrintWriter
+	ugo.PrintWriter = &out
+	defer func() { ugo.PrintWriter = old }()
+	session := func(withFail bool) *Sexp {
+		ev := ugo.NewEval(ugo.CompilerOptions{ModuleMap: mkmm(), NoOptimize: noopt}, ugo.Map{"g0": ugo.Int(0)})
+		run := func(src string) (v ugo.Object, err error) {
+			defer func() {
+				if r := recover(); r != nil {
+					err = fmt.Errorf("panic: %v", r)
+				}
+			}()
+			v, _, err = ev.Run(context.Background(), []byte(src))
+			return
+		}
+		for i, f := range frags {
+			src := unreturnLast(f)
+			last := i == len(frags)-1
+			if last && withFail {
+				src += "\n" + fail
+			}
+			_, err := run(src)
+			if last && withFail {
+				if err == nil {
+					return L(A("skip"), A("the failing statement did not fail"))
+				}
+				continue
+			}
+			if err != nil {
+				return L(A("skip"), A("fragment fails by itself"))
+			}
+		}
+		v, err := run(probe)
+		if err != nil {
+			return evalErrSexp(err)
+		}
+		return L(A("ok"), SexpOfValue(v))
+	}
+	withFail := session(true)
+	without := session(false)
+	src := ""
+	for _, f := range frags {
+		src += unreturnLast(f) + "\n"
+	}
+	batch := L(A("skip"))
+	if bc, err, pan := compileSrc([]byte(src+probe+"\n"), ugo.CompilerOptions{ModuleMap: mkmm(), NoOptimize: noopt}); err == nil && pan == nil {
+		batch = runVM(ugo.NewVM(bc).SetRecover(true), ugo.Map{"g0": ugo.Int(0)})
+	}
+	return L(A("evalfailstate"), withFail, without, batch)
+}
